@@ -640,6 +640,122 @@ type c08Case struct {
 	chain []string
 }
 
+// c08ProgressiveScans writes a progressive JPEG at the marker level: any number
+// of scans of every kind (DC/AC, first/refinement, any spectral band), most of
+// them a few bytes long because end-of-band runs skip all their blocks.
+func c08ProgressiveScans(r *kit.Rand) []byte {
+	var b bytes.Buffer
+	seg := func(marker byte, payload []byte) {
+		b.Write([]byte{0xff, marker, byte((len(payload) + 2) >> 8), byte(len(payload) + 2)})
+		b.Write(payload)
+	}
+	dht := func(class, id int, byLen map[int][]byte) []byte {
+		p := []byte{byte(class<<4 | id)}
+		var syms []byte
+		for l := 1; l <= 16; l++ {
+			p = append(p, byte(len(byLen[l])))
+			syms = append(syms, byLen[l]...)
+		}
+		return append(p, syms...)
+	}
+	b.Write([]byte{0xff, 0xd8})
+	q := []byte{0}
+	for i := 0; i < 64; i++ {
+		q = append(q, byte(1+i%7))
+	}
+	seg(0xdb, q)
+	dim := kit.Pick(r, []int{64, 512, 2048, 2048, 4096})
+	w, h := dim, dim
+	if r.Chance(1, 4) {
+		w, h = kit.Pick(r, []int{8, 65535}), kit.Pick(r, []int{8, 4096})
+	}
+	nc := kit.Pick(r, []int{1, 1, 3})
+	sof := []byte{8, byte(h >> 8), byte(h), byte(w >> 8), byte(w), byte(nc)}
+	for i := 1; i <= nc; i++ {
+		sof = append(sof, byte(i), 0x11, 0)
+	}
+	seg(0xc2, sof)
+	// DC table: categories 0..2 with two-bit codes; AC table: 00 = EOB14, 01 = EOB0,
+	// 100 = (0,1), 101 = (1,1), 110 = ZRL
+	seg(0xc4, dht(0, 0, map[int][]byte{2: {0, 1, 2}}))
+	seg(0xc4, dht(1, 0, map[int][]byte{2: {0xe0, 0x00}, 3: {0x01, 0x11, 0xf0}}))
+	scans := kit.Pick(r, []int{3, 40, 64, 65, 200, 2000, 12000, 12000, 20000})
+	style := r.Intn(4)       // 0: mixed, 1: AC refinement only, 2: AC first only, 3: DC refinement only
+	sloppy := r.Chance(1, 4) // some scans have no or random entropy data
+	blocks := ((w + 7) / 8) * ((h + 7) / 8)
+	for i := 0; i < scans && b.Len() < 2<<20; i++ {
+		kind := style
+		if style == 0 {
+			kind = 1 + r.Intn(4)
+			if kind >= 3 && b.Len()+blocks > 1<<20 {
+				kind -= 2 // DC scans need data for every block
+			}
+		}
+		comp := byte(1 + r.Intn(nc))
+		var ss, se, ahal byte
+		switch kind {
+		case 1: // AC refinement
+			ss = byte(1 + r.Intn(63))
+			se = byte(int(ss) + r.Intn(64-int(ss)))
+			if r.Bool() {
+				ss, se = 1, 63
+			}
+			al := byte(r.Intn(3))
+			ahal = (al+1)<<4 | al
+		case 2: // AC first
+			ss = byte(1 + r.Intn(63))
+			se = byte(int(ss) + r.Intn(64-int(ss)))
+			ahal = byte(r.Intn(3))
+		case 3: // DC refinement
+			al := byte(r.Intn(3))
+			ahal = (al+1)<<4 | al
+		default: // DC first
+			ahal = byte(r.Intn(3))
+		}
+		hdr := []byte{1, comp, 0x00, ss, se, ahal}
+		if kind >= 3 && nc == 3 && r.Bool() {
+			hdr = []byte{3, 1, 0, 2, 0, 3, 0, ss, se, ahal} // DC scans may be interleaved
+		}
+		seg(0xda, hdr)
+		k := 2 + r.Intn(14)
+		if sloppy {
+			k = r.Intn(16)
+		}
+		switch {
+		case k == 0:
+			// nothing at all
+		case k == 1:
+			for _, x := range r.Bytes(r.Intn(12)) {
+				b.WriteByte(x)
+				if x == 0xff {
+					b.WriteByte(0)
+				}
+			}
+		case kind >= 3:
+			// DC scans: category 0 (two zero bits) resp. one refinement bit per block
+			n := blocks/8 + 1
+			if kind != 3 {
+				n = blocks/4 + 1
+			}
+			if len(hdr) > 6 {
+				n *= 3
+			}
+			b.Write(make([]byte, n))
+		default:
+			// end-of-band runs of 32766 blocks each, enough for all blocks (sometimes one short)
+			n := (blocks+32765)/32766 + r.Intn(2)
+			if k == 2 && sloppy {
+				n--
+			}
+			for ; n > 0; n-- {
+				b.Write([]byte{0x3f, 0xfe})
+			}
+		}
+	}
+	b.Write([]byte{0xff, 0xd9})
+	return b.Bytes()
+}
+
 func c08Gen(r *kit.Rand, seeds []c08Seed, quick bool) c08Case {
 	s := kit.Pick(r, seeds)
 	other := kit.Pick(r, seeds)
@@ -791,6 +907,11 @@ func c08Gen(r *kit.Rand, seeds []c08Seed, quick bool) c08Case {
 			cs.body = b
 			cs.chain = []string{s.filter}
 		}
+	case k < 18 && r.Chance(1, 5):
+		cs.class = "dct-scan-level"
+		cs.dict["Filter"] = pdf.Name("DCTDecode")
+		cs.body = c08ProgressiveScans(r)
+		cs.chain = []string{"DCTDecode"}
 	case k < 18 && r.Chance(1, 3):
 		cs.class = "jbig2-segment-level"
 		cs.dict["Filter"] = pdf.Name("JBIG2Decode")
